@@ -1,8 +1,10 @@
 #!/bin/sh
-# for every seeded change: demo on the clean tree, apply, demo again, run the owning check, undo
-cd /verif
-for d in seeded/*/; do
-  n=$(basename $d); p=$(echo $n | cut -d- -f1)
+# for every seeded change (or those named on the command line): demo on the clean tree, apply, demo again, run the
+# owning check (quick tier), undo
+cd "$(dirname "$0")/.." || exit 2
+names="$@"; [ -z "$names" ] && names=$(ls seeded | grep -v RESULTS)
+for n in $names; do
+  p=$(echo $n | cut -d- -f1)
   (cd /repo && timeout 600 /venv/bin/python /verif/seeded/$n/demo.py > /dev/null 2>&1); d0=$?
   git -C /repo apply /verif/seeded/$n/patch.diff || { echo "$n APPLY-FAILED"; continue; }
   (cd /repo && timeout 600 /venv/bin/python /verif/seeded/$n/demo.py > /dev/null 2>&1); d1=$?
